@@ -267,8 +267,38 @@ def genesis_case(spec):
             "counters": {"runs": 2, "faults": 1, "faults:genesis": 1}}
 
 
+def window_case(spec):
+    """consistent chains around a round height R (sparse index R-3..R+4): --verify must accept them whatever the absolute height is"""
+    coin, R = spec["coin"], spec["R"]
+    rng = random.Random("C09w|%s|%s" % (spec["seed"], R))
+    cb = gen.ChainBuilder(rng, coin, start_height=R - 3)
+    for _ in range(8):
+        cb.add_block(txs=[cb.spend_tx(1, outs=[cb.out(rng.choice(["p2pkh", "p2sh", "nonstd"]))], segwit=rng.random() < 0.3) for _ in range(rng.randint(0, 4))])
+    chain = cb.chain()
+    work = harness.fresh(os.path.join(spec["work"], "c%d" % spec["n"]))
+    d = os.path.join(work, "d")
+    datadir.write_datadir(d, COINS[coin], harness.simple_layout(chain))
+    binary = core.build("release")
+    v, runs, shapes = [], 0, []
+    for s, e in ((R - 2, None), (R - 1, R + 1), (R, None), (R + 1, R + 3)):
+        for cbname in spec.get("callbacks", ["csvdump"]):
+            dump = harness.fresh(os.path.join(work, "o"))
+            p = harness.run_cb(binary, d, coin, cbname, dump, s, e, verify=True, timeout=300)
+            runs += 1
+            if p.rc != 0:
+                v.append(viol("rejected-consistent-chain", "--verify -s %d%s rejected a consistent chain around height %d (%s): %s" % (
+                    s, "" if e is None else " -e %d" % e, R, coin, (p.err or p.out)[-300:].replace("\n", " | "))))
+                continue
+            bad = oracles.check_csvdump(p, dump, chain, coin, s, e) if cbname == "csvdump" else oracles.check_unspent(p, dump, chain, coin, s, e)
+            v.extend(viol("accepted-but-" + sig, det) for sig, det in bad)
+            shapes.append("accept-window|%s|R=%d" % (coin, R))
+    shutil.rmtree(work, ignore_errors=True)
+    return {"evaluations": runs, "violations": v[:4], "shapes": shapes, "counters": {"runs": runs, "accept_runs": runs, "round_height_windows": 1},
+            "sample": {"kind": "accept-window", "coin": coin, "R": R}}
+
+
 def dispatch(spec):
-    return {"accept": positive_case, "reject": negative_case, "genesis": genesis_case, "pruned": pruned_case}[spec["case"]](spec)
+    return {"accept": positive_case, "reject": negative_case, "genesis": genesis_case, "pruned": pruned_case, "window": window_case}[spec["case"]](spec)
 
 
 def plan(chk):
@@ -339,7 +369,17 @@ def plan(chk):
         n += 1
         other = "bitcoin" if coin != "bitcoin" else "litecoin"
         specs.append(dict(case="genesis", coin=coin, seed=chk.seed, n=n, foreign_genesis=other))
+    rounds = [1000, 4096, 10000, 20000, 50000, 65536, 100000, 131072, 210000, 250000, 420000, 500000, 10**6, 2**20, 2**21, 2**22]
+    for i, R in enumerate(rounds if chk.thorough else [10000, 65536, 100000] + rng.sample([r for r in rounds if r not in (10000, 65536, 100000)], 4)):
+        n += 1
+        specs.append(dict(case="window", coin=COIN_NAMES[(chk.seed + i) % 8], seed=chk.seed, n=n, R=R,
+                          callbacks=["csvdump", "unspentcsvdump"] if chk.thorough else ["csvdump"]))
     return specs
+
+
+def _dispatch(spec):
+    from .. import longrun
+    return longrun.long_case(spec) if spec.get("case") == "long" else dispatch(spec)
 
 
 def main():
@@ -351,7 +391,10 @@ def main():
     for sp in specs:
         sp["work"] = chk.workdir
     specs.sort(key=lambda s: 0 if s["case"] == "reject" else 1)
-    for res in core.parallel(dispatch, specs):
+    from ..chain import COIN_NAMES
+    specs.insert(0, dict(case="long", callback="csvdump", coin=COIN_NAMES[(chk.seed + 5) % 8], seed=chk.seed, n=0, blocks=(140000 if chk.thorough else 70000), verify=True, work=chk.workdir))
+    specs[0]["callback"] = ["csvdump", "unspentcsvdump", "balances", "simplestats"][chk.seed % 4]
+    for res in core.parallel(_dispatch, specs):
         chk.absorb(res)
     chk.finish(RULE, floor={"accept_runs": 40, "faults": 1000, "faults:merkle": 500, "faults:prev": 500, "faults:tx": 300, "faults:foreign": 10,
                             "faults:genesis": 8, "real_genesis_chains": 4, "max_tree_shapes": 64},
@@ -362,4 +405,5 @@ def main():
 
 
 def replay(spec):
-    core.replay_case("C09", {"accept": positive_case, "reject": negative_case, "genesis": genesis_case, "pruned": pruned_case}, spec)
+    from .. import longrun
+    core.replay_case("C09", {"accept": positive_case, "reject": negative_case, "genesis": genesis_case, "pruned": pruned_case, "window": window_case, "long": longrun.long_case}, spec)
